@@ -120,6 +120,9 @@ type c02Change struct {
 	full           bool
 	sl, sc, el, ec int
 	text           string
+	// the deprecated rangeLength member some clients still send along with the range: the length of the replaced text
+	// in UTF-16 code units (0 = not sent); it carries no information the range does not, and must not change the result
+	rlen int
 }
 
 func (c c02Change) enc() string {
@@ -214,6 +217,18 @@ func genHistory(r *lib.Rng, res *lib.Result) (ops []c02Op, client []map[int]stri
 							res.Dist("change.beyondEOL")
 						}
 						ch = c02Change{sl: sp.Line, sc: sp.Character, el: ep.Line, ec: ep.Character, text: txt}
+						if (a+len(ops))%2 == 0 {
+							for _, x := range cs[a:b] {
+								if x.eol {
+									ch.rlen += len(x.b)
+								} else {
+									ch.rlen += x.units
+								}
+							}
+							if ch.rlen > 0 {
+								res.Dist("change.with-rangeLength")
+							}
+						}
 						sa, sb := byteOfIndex(cs, a), byteOfIndex(cs, b)
 						cur = cur[:sa] + txt + cur[sb:]
 						if a == b {
@@ -346,7 +361,7 @@ func runC02(res *lib.Result, tier string, seed int64, args []string) error {
 			} else {
 				evs = append(evs, lsp.TextDocumentContentChangeEvent{Range: &lsp.Range{
 					Start: lsp.Position{Line: uint32(c.sl), Character: uint32(c.sc)},
-					End:   lsp.Position{Line: uint32(c.el), Character: uint32(c.ec)}}, Text: c.text})
+					End:   lsp.Position{Line: uint32(c.el), Character: uint32(c.ec)}}, RangeLength: uint32(c.rlen), Text: c.text})
 			}
 		}
 		out, err := fmc.ApplyContentChanges("f.lua", []byte(doc), evs)
@@ -523,7 +538,7 @@ func runC02(res *lib.Result, tier string, seed int64, args []string) error {
 					if c.full {
 						chs = append(chs, lib.ContentChange{Text: c.text})
 					} else {
-						chs = append(chs, lib.ContentChange{Range: &lib.Range{Start: lib.Pos{Line: c.sl, Character: c.sc}, End: lib.Pos{Line: c.el, Character: c.ec}}, Text: c.text})
+						chs = append(chs, lib.ContentChange{Range: &lib.Range{Start: lib.Pos{Line: c.sl, Character: c.sc}, End: lib.Pos{Line: c.el, Character: c.ec}}, RangeLength: c.rlen, Text: c.text})
 					}
 				}
 				err = sess.DidChange(rel, chs)
